@@ -11,7 +11,7 @@ Local obligations, proved on the real code with pyvc:
       the substitution unchanged (same object); different constructors -> None; a None
       substitution is propagated; parametrised types of the same constructor / definition
       delegate to _unify_args; function types additionally need equal parameter lists, equal
-      arity and agreeing ownership flags on inputs that are linear on both sides.
+      arity and agreeing ownership flags on inputs that are not copyable on both sides.
   U3  _unify_var: a solved variable is replaced by its solution; an unsolved one is bound to the
       other side with already-solved variables resolved, unless it occurs in it (None); every
       other entry of the substitution is kept.
@@ -645,26 +645,67 @@ def u2(chk):
                                          all(p.value[x] is None for x in ("opaque~other-def", "struct~other-def", "tuple~opaque", "opaque~struct", "tuple~int"))), func=f"{TY}:unify")
     e.models.pop(f"{TY}:_unify_args", None)
     # function types: parameter lists, arity, ownership flags of inputs that are linear on both sides
-    for case in ("same", "arity", "flags-linear", "flags-nonlinear", "flags-one-side-linear", "params"):
+    # (an owned and a borrowed input have different calling conventions — the borrowed value is handed back — whenever
+    # the type is NOT COPYABLE, droppable or not; for copyable inputs the flags make no difference)
+    for case in ("same", "arity", "flags-linear", "flags-affine", "flags-affine-vs-linear", "flags-nonlinear", "flags-one-side-linear", "params"):
         def t_fn(it, case=case):
             k = K(e, it)
             f = it.lookup_global(m, "unify")
             e.models[f"{TY}:_unify_args"] = lambda it2, a, kw: ("ARGS",)
             lin = k.call(k.BTV, "L", 5, False, False)
+            aff = k.call(k.BTV, "A", 6, False, True)        # not copyable, droppable (e.g. an array of ints)
             non = k.int_()
             def fn(ins, params=None):
                 return k.call(k.Fn, [k.inp(ty, fl) for ty, fl in ins], k.call(k.NoneT), params or [])
             p0 = k.call(k.TP, 0, "P", True, True)
             pairs = {"same": (fn([(lin, "Owned")]), fn([(lin, "Owned")])), "arity": (fn([(non, "NoFlags")]), fn([(non, "NoFlags"), (non, "NoFlags")])),
-                     "flags-linear": (fn([(lin, "Owned")]), fn([(lin, "Inout")])), "flags-nonlinear": (fn([(non, "Owned")]), fn([(non, "NoFlags")])),
+                     "flags-linear": (fn([(lin, "Owned")]), fn([(lin, "Inout")])), "flags-affine": (fn([(aff, "Owned")]), fn([(aff, "Inout")])),
+                     "flags-affine-vs-linear": (fn([(aff, "Inout")]), fn([(lin, "Owned")])), "flags-nonlinear": (fn([(non, "Owned")]), fn([(non, "NoFlags")])),
                      "flags-one-side-linear": (fn([(lin, "Owned")]), fn([(non, "NoFlags")])), "params": (fn([(non, "NoFlags")], [p0]), fn([(non, "NoFlags")]))}
             x, y = pairs[case]
             return it.call(f, [x, y, {}], {})
-        want = {"same": True, "arity": False, "flags-linear": False, "flags-nonlinear": True, "flags-one-side-linear": True, "params": False}[case]
+        want = {"same": True, "arity": False, "flags-linear": False, "flags-affine": False, "flags-affine-vs-linear": False, "flags-nonlinear": True, "flags-one-side-linear": True, "params": False}[case]
         chk.prove_paths(f"unify[function types:{case}]:{'delegates-to-_unify_args' if want else 'fails'}", e.explore(t_fn),
-                        lambda p, want=want: z3.BoolVal(p.kind == "return" and ((p.value == ("ARGS",)) if want else (p.value is None))), func=f"{TY}:unify")
+                        lambda p, want=want: z3.BoolVal(p.kind == "return" and ((p.value == ("ARGS",)) if want else (p.value is None))), func=f"{TY}:unify",
+                        replay=(lambda m_: {"script": REPLAY_OWNERSHIP, "input": {}}) if "affine" in case else None)
     e.models.pop(f"{TY}:_unify_args", None)
     chk.use_engine(e)
+
+
+REPLAY_OWNERSHIP = r'''
+import guppy_plainbool
+import tempfile, importlib.util, os, sys, shutil
+from guppylang_internals.error import GuppyError
+src = """from collections.abc import Callable
+from guppylang import guppy
+from guppylang.std.builtins import array, owned, result
+@guppy
+def consume(a: array[int, 3] @owned) -> None:
+    pass
+@guppy
+def get() -> Callable[[array[int, 3]], None]:
+    return consume
+@guppy
+def main() -> None:
+    f = get()
+    xs = array(1, 2, 3)
+    f(xs)
+    result("x", xs[0])
+"""
+d = tempfile.mkdtemp(dir=os.environ.get("TMPDIR", "/var/tmp")); fn = os.path.join(d, "replay_c12o.py"); open(fn, "w").write(src)
+spec = importlib.util.spec_from_file_location("replay_c12o", fn); m = importlib.util.module_from_spec(spec); sys.modules["replay_c12o"] = m
+spec.loader.exec_module(m)
+try:
+    m.main.check(); got = "accepted"
+    try:
+        m.main.emulator(n_qubits=1).run(); got += ", runs"
+    except Exception as ex:
+        got += ", but the compiled package is invalid: " + type(ex).__name__
+except GuppyError as ex:
+    got = "rejected:" + type(ex.error).__name__
+shutil.rmtree(d, ignore_errors=True)
+print(json.dumps({"violates": got.startswith("accepted"), "observed": got, "required": "a function taking its array OWNED is not a Callable taking it BORROWED (the borrowed array is handed back, the owned one is not)"}))
+'''
 
 
 def u3(chk):
